@@ -285,12 +285,54 @@ def _scenario(variant, N, S, R, start, length, rng, p_drop, p_dup, p_timeout, sh
         rig.close()
 
 
+def overlap_witness(rng):
+    """OverlapRefresh.tla's counterexample on the real blocking structure and socket: two refresh requests
+    (different ranges) in flight at once, the first segment of A's answer, then the final segment of B's.
+    Outside C01's quantifier (overlapping transfers); the outcome is evidence, not a verdict."""
+    from ..transfer import SyncRig, SIM_ADDR
+    from geckolib.driver import GeckoStatusBlockProtocolHandler
+    N, S = 1024, 39
+    spa, old = blocks(N, rng, coded=False)
+    rig = SyncRig(N, S, 2, 100, 60, spa, old)          # request A: (100, 60)
+    try:
+        rig.collect()
+        req_b = GeckoStatusBlockProtocolHandler.request(rig.sock.get_and_increment_sequence_counter(False), 500, 60, parms=rig.parms)
+        rig.struct.retry_request(rig.sock, req_b, rig.parms)        # request B: (500, 60), A still in flight
+        rig.iterate(3)
+        rig.collect()
+        us = [d for d in rig.bag if d["m"]["t"] == "U"]
+        for _ in us:
+            rig.serve()
+        segs = [d for d in rig.bag if d["m"]["t"] == "V"]
+        a0 = next((d for d in segs if d["m"].get("off") == 100 and d["m"].get("idx") == 0), None)
+        b1 = next((d for d in segs if d["m"].get("off") == 539 and d["m"].get("next") == 0), None)
+        if a0 is None or b1 is None:
+            return {"reproduced": None, "note": f"segments not found: {[d['m'] for d in segs]}"}
+        rig.deliver(a0["m"])
+        rig.deliver(b1["m"])
+        blk = rig.block()
+        wrong = [p for p in range(min(len(blk), N)) if blk[p] not in (spa[p], old[p])]
+        return {"reproduced": bool(wrong) or len(blk) != N, "block_len": len(blk), "bytes_that_are_neither_old_nor_the_spas": len(wrong),
+                "first_wrong_offset": wrong[0] if wrong else -1}
+    finally:
+        rig.close()
+
+
 def run(ctx):
     ev = ctx.ev
     rng = env.rng("c01")
     quick = ctx.quick
     fixed = chain_fixed()
 
+    # ---- 0. outside the quantifier: overlapping refresh requests of the blocking client (observation) ----
+    ro = tlc.model_check("OverlapRefresh", "OverlapRefresh.cfg", workers=2, timeout=120, tag="Overlap", coverage=False)
+    ev.add_tlc("OverlapRefresh: two refresh requests of the blocking client in flight at once (refuted: observation outside C01's quantifier)", ro)
+    if "InstallIsOneChain" not in ro.violated:
+        raise env.MachineryError("OverlapRefresh: the mixed install was not found")
+    try:
+        ev.cov["overlapping_refresh_witness_on_real_code"] = overlap_witness(rng)
+    except Exception as e:  # noqa
+        ev.cov["overlapping_refresh_witness_on_real_code"] = {"reproduced": None, "note": f"{type(e).__name__}: {e}"}
     # ---- 1. design models -----------------------------------------------------
     over = {} if quick else {"N": 9, "R": 3, "MaxFaults": 3}
     for variant in ("async", "sync"):
